@@ -51,8 +51,9 @@ theorem chain_step_uses_likelihood_ratio (dt : DType) (c : Sim.CodeMats)
   · show acceptQ _ _ = _
     rw [acceptQ_eq_min _ _ hpos, stringProb_ratio ds s d.idx dq τ (σ.mul τ) hq hτ hpos]
 
-/-- the same for the channel as stated (C07): base distribution `(1-p, r_x p, r_y p, r_z p)`,
-    deformed per qubit or not -/
+/-- the same for the channel as stated (C07): on an undeformed qubit the ratio is formed from
+    `(1-p, r_x p, r_y p, r_z p)`, on a deformed qubit from the same numbers permuted by that
+    qubit's deformation — for every rate, direction and (permutation) deformation -/
 theorem chain_step_stated_channel (dt : DType) (c : Sim.CodeMats) (decode : List Nat → List Nat)
     (p rx ry rz : Rat) (n : Nat) (Ds : Option (List PauliMap)) (ds : List Dist)
     (hds : probabilityDistribution p rx ry rz n Ds = some ds)
@@ -60,10 +61,32 @@ theorem chain_step_stated_channel (dt : DType) (c : Sim.CodeMats) (decode : List
     (hr : Sim.rateOk p = true) (hq : ds[d.idx]? = some dq) (hτ : s[d.idx]? = some τ)
     (hσ : (proposalLetters dq)[d.letter]? = some σ) (hpos : stringProb ds s ≠ 0) :
     ∃ tr, getNextError dt c ds.length decode p ds (pauliToBsf s) d = .ok tr ∧
-      tr.q = min 1 (stringProb ds (s.set d.idx (σ.mul τ)) / stringProb ds s) := by
-  obtain ⟨tr, h1, _, h3, _⟩ :=
+      tr.q = min 1 (dq.get (σ.mul τ) / dq.get τ) ∧
+      (Ds = none → dq = baseDist p rx ry rz) ∧
+      (∀ L, Ds = some L → (∀ D ∈ L, D.isPerm = true) →
+        ∃ D, L[d.idx]? = some D ∧ dq = permDist D (baseDist p rx ry rz)) := by
+  obtain ⟨tr, h1, _, _, h4, _⟩ :=
     chain_step_uses_likelihood_ratio dt c decode p ds s d dq σ τ hs hr hq hτ hσ hpos
-  exact ⟨tr, h1, h3⟩
+  refine ⟨tr, h1, h4, ?_, ?_⟩
+  · intro hD
+    subst hD
+    simp only [probabilityDistribution, Option.some.injEq] at hds
+    subst hds
+    rw [List.getElem?_replicate] at hq
+    split at hq
+    · exact (Option.some.inj hq).symm
+    · cases hq
+  · intro L hD hperm
+    subst hD
+    simp only [probabilityDistribution] at hds
+    rw [mapM_deformDist_of_perm _ L hperm, Option.some.injEq] at hds
+    subst hds
+    rw [List.getElem?_map] at hq
+    cases hL : L[d.idx]? with
+    | none => simp [hL] at hq
+    | some D =>
+      simp only [hL, Option.map_some, Option.some.injEq] at hq
+      exact ⟨D, rfl, hq.symm⟩
 
 /-- a previous error of probability 0 (`log = -inf`; only at rate 1): the difference of logs
     is `+inf` or `nan`, `min(0, ·)` is 0, the proposal is accepted with probability 1 -/
